@@ -464,6 +464,9 @@ func init() {
 			last = step("umount", pickLayer(r, ws).Name, "", false)
 		}
 		last.Users = genUsers(r, ws, 2)
+		if r.Chance(1, 4) && last.Cmd.A != "" { // a process chrooted into a directory of the layer that is no part of the mounted tree
+			last.Users = map[string][]lcw.User{last.Cmd.A: {{Root: true, File: r.Pick([]string{"rescue", "packages", "", "generated/x"})}}}
+		}
 		in.Steps = append(in.Steps, last)
 		if r.Chance(1, 2) {
 			in.Steps = append(in.Steps, step("umount", "", "", true))
@@ -550,6 +553,18 @@ func init() {
 		if r.Chance(1, 8) {
 			ws.HostLayout = "bindbase"
 		}
+		if r.Chance(1, 5) { // a derived layer that lost SEVERAL of its set-up directories at once
+			for i := range ws.Layers {
+				if ws.Layers[i].Base != "" {
+					l := &ws.Layers[i]
+					l.HasBuild, l.HasWork, l.HasUpper = r.Chance(1, 4), r.Chance(1, 3), r.Chance(1, 3)
+					in := lcw.BuildInput(ws)
+					in.Steps = append(in.Steps, step("probe", "", "", false),
+						step(r.Pick([]string{"mkdirs", "mkdirs", "mount"}), l.Name, "", false), step("probe", "", "", false))
+					return []lcw.Input{in}
+				}
+			}
+		}
 		cfg := lcw.StdCfg(ws.BaseName)
 		if r.Chance(1, 4) { // export links right / wrong / not a symlink
 			l := pickLayer(r, ws)
@@ -623,6 +638,10 @@ func init() {
 				in.Steps = append(in.Steps, step("remove", "fresh", "", false))
 			}
 		}
+		if r.Chance(1, 4) { // the layer has been in use: mounted once (export links exist), a build left packages behind
+			in.Steps = append(in.Steps, step("mount", t.Name, "", false), step("umount", "", "", true),
+				lcw.StepIn{Cmd: lcw.Cmd{Kind: "edit", A: in.Cfg.Layers + "/" + t.Name + "/" + r.Pick([]string{"packages/app-1.tbz2", "generated/out.txt"}), B: "built\n"}})
+		}
 		in.Steps = append(in.Steps, step("remove", t.Name, "", false))
 		return []lcw.Input{in}
 	}, func(in lcw.Input, obs []lcw.StepObs) bool {
@@ -631,6 +650,27 @@ func init() {
 	// ---- C10 / C11: fault and crash positions
 	faulty := func(mode string) gen {
 		return func(r *rng.R, tier string) []lcw.Input {
+			if mode == "crash" && r.Chance(1, 8) { // no fault at all: a rewrite in a chain three deep keeps every other layer's parent
+				ws := lcw.WorldSpec{BaseName: "b", HostLayout: "plain"}
+				imps := lcw.GenImports(r, lcw.StdCfg("b"), true)
+				prev := ""
+				for _, n := range []string{"top", "mid", "leaf", "twig"}[:3+r.Intn(2)] {
+					ws.Layers = append(ws.Layers, lcw.LayerSpec{Name: n, Base: prev, HasConfig: true, HasBuild: true, Minimal: true,
+						Mountpoints: true, HasWork: prev != "", HasUpper: prev != "", Imports: imps})
+					prev = n
+				}
+				in := lcw.BuildInput(ws)
+				switch r.Intn(3) {
+				case 0:
+					in.Steps = append(in.Steps, step("rename", "top", "bottom", false))
+				case 1:
+					in.Steps = append(in.Steps, step("rename", "mid", "middle", false))
+				default:
+					in.Steps = append(in.Steps, step("rebase", "mid", "", false))
+				}
+				in.Steps = append(in.Steps, step("probe", "", "", false))
+				return []lcw.Input{in}
+			}
 			ws, in := world(r, true)
 			if mode == "crash" && r.Chance(1, 2) { // odd but loadable layerconfigs
 				for i := range ws.Layers {
